@@ -33,11 +33,11 @@ func (g *gen) leaf() Node {
 	x := g.r.Float64()
 	switch {
 	case x < 0.60:
-		return leaf("probe", g.pick(g.probes), g.p(0.72), g.p(0.93), g.p(0.75), g.p(0.95), g.p(0.9))
+		return leaf("probe", g.pick(g.probes), g.p(0.8), g.p(0.93), g.p(0.8), g.p(0.95), g.p(0.9))
 	case x < 0.85 && len(g.spies) > 0:
-		return leaf("spy", g.pick(g.spies), g.p(0.72), true, g.p(0.75), true, true)
+		return leaf("spy", g.pick(g.spies), g.p(0.8), true, g.p(0.8), true, true)
 	default:
-		return leaf("gen", "g", g.p(0.72), true, g.p(0.75), g.p(0.95), g.p(0.9))
+		return leaf("gen", "g", g.p(0.8), true, g.p(0.8), g.p(0.95), g.p(0.9))
 	}
 }
 
@@ -151,12 +151,16 @@ func (g *gen) tx() txSpec {
 	}
 	ts := txSpec{Ext: "ok", Fee: 1 + g.r.Intn(3), Msgs: []txMsg{}}
 	first := g.acct()
+	pOwn := 0.9
+	if n > 1 && g.p(0.5) {
+		pOwn = 1
+	}
 	for i := 0; i < n; i++ {
 		a := first
 		if i > 0 && g.p(0.5) {
 			a = g.acct()
 		}
-		m := txMsg{A: a.Name, Sel: g.someId(a, 0.9), M: msgBody{K: "send", T: nilNode()}}
+		m := txMsg{A: a.Name, Sel: g.someId(a, pOwn), M: msgBody{K: "send", T: nilNode()}}
 		switch x := g.r.Float64(); {
 		case x < 0.50:
 		case x < 0.62:
